@@ -12,6 +12,24 @@ ASSUMPTIONS = ["property verdicts on implementation output use a Python transcri
 CHK = re.compile(rb"^[0-9A-Fa-f]{4}(\r\n|\n)?$")
 
 
+def wf_ident(line: bytes) -> bool:
+    """IEC 62056-21 identification line, written out by hand (independent of the repository's pattern):
+    '/', two upper-case letters, one letter, one digit, any number of backslash+word-character escape
+    sequences, up to 16 printable characters; the line is given stripped."""
+    if len(line) < 5 or line[0:1] != b"/":
+        return False
+    a, b, c, d = line[1], line[2], line[3], line[4]
+    up = lambda x: 65 <= x <= 90
+    al = lambda x: up(x) or 97 <= x <= 122
+    if not (up(a) and up(b) and al(c) and 48 <= d <= 57):
+        return False
+    rest = line[5:]
+    word = lambda x: al(x) or 48 <= x <= 57 or x == 95
+    while len(rest) >= 2 and rest[0] == 92 and word(rest[1]):
+        rest = rest[2:]
+    return len(rest) <= 16 and all(32 <= x <= 126 for x in rest)
+
+
 def oracle(b: bytes, rendered: str):
     """C04 as a predicate on what the implementation reported for readout bytes b; returns why-not or None"""
     if rendered.startswith("EXC"):
@@ -37,6 +55,9 @@ def oracle(b: bytes, rendered: str):
             return f"payload {got!r} is not the bytes between the identification line and '!' ({payload!r})"
         if "/" not in f[5]:
             return f"reported valid although the identification line does not parse ({f[5]})"
+        first = r[:data_pos]
+        if any(x >= 128 for x in first) or not wf_ident(first.strip(b" \t\n\r\x0b\x0c\x1c\x1d\x1e\x1f")):
+            return f"reported valid although the identification line {first!r} is not well-formed"
     return None
 
 
@@ -123,6 +144,19 @@ def run(res, tier, seed, widen=1):
             items.append(P.gen_noise(rng))
         else:  # zero-crc hunting: vary a data character until the CRC is small
             items.append(mutate_checksum(rng, P.gen_readout(rng, with_crc=True, nlines=1)))
+    # identification-line boundary family: every position of the fixed part and the first id characters replaced by
+    # characters adjacent to the class boundaries of the pattern (and a few others)
+    edge = [0x2F, 0x30, 0x39, 0x3A, 0x40, 0x41, 0x5A, 0x5B, 0x5C, 0x5D, 0x5E, 0x5F, 0x60, 0x61, 0x7A, 0x7B, 0x7E, 0x7F, 0x1F, 0x20, 0x21, 0x80]
+    base_ro = P.gen_readout(rng, with_crc=False, nlines=1)
+    for pos in range(0, 8):
+        for ch in edge:
+            m = bytearray(base_ro)
+            if pos < len(m):
+                m[pos] = ch
+                items.append(bytes(m))
+                body = bytes(m[:m.find(b"!") + 1]) if b"!" in m else None
+                if body:
+                    items.append(body + b"%04X\r\n" % P.crc16(body))
     # readouts whose real CRC is 0000 (the transmitted checksum 0000 must be compared, not skipped)
     for ident in (b"0CJ", b"DCm", b"HCh"):
         body = b"/ABC5" + ident + b"\r\n1-0:1.7.0(00.100*kW)\r\n!"
